@@ -9,10 +9,15 @@ Model of
   the second slash),
 * the target construction of `AddTrailingSlashWithConfig` / `RemoveTrailingSlashWithConfig`
   (decoded `URL.Path` ± `/`, raw query string, redirect or forward),
+* the four constructors of the slash middlewares (`AddTrailingSlash()`, `RemoveTrailingSlash()` and
+  the `…WithConfig` forms with their `Skipper`),
 * `Context.Redirect` (code check, `Location` written verbatim),
-* `StaticDirectoryHandler` as registered by `Echo.Static` / `Group.Static`
-  (`url.PathUnescape` of the `*` parameter, `filepath.Clean(TrimPrefix(p, "/"))`, `fs.Stat`,
-  directory redirect built from `URL.Path`, `fsFile` with its `index.html` join).
+* `StaticDirectoryHandler(fs, disablePathUnescaping)` as registered by `Echo.Static` / `StaticFS`,
+  `Group.Static` / `StaticFS` or by hand (`url.PathUnescape` of the `*` parameter,
+  `filepath.Clean(TrimPrefix(p, "/"))`, `fs.Stat`, directory redirect built from `URL.Path`,
+  `fsFile` with its `index.html` join); the mount point (literal prefix, root, below a path
+  parameter) only decides what the router binds to `*`, which is an input of the model,
+* a slash middleware under `e.Pre` in front of a static route (`Req.preStatic`).
 
 Standard-library pieces implemented here and validated by the correspondence run only (no
 theorem depends on them): `url.PathUnescape`, `path.Clean`, `fs.ValidPath` on cleaned names,
@@ -87,6 +92,44 @@ def removeSlash (code : Nat) (path qs reqURI : List Char) : Out :=
     let uri := withQuery path' qs
     if code != 0 then redirect code (sanitizeURI uri) else .next path' uri
   else .next path reqURI
+
+/-! ## the constructors of the slash middlewares
+
+`AddTrailingSlash()` is `AddTrailingSlashWithConfig(DefaultTrailingSlashConfig)` (default skipper,
+`RedirectCode` 0), `RemoveTrailingSlash()` is `RemoveTrailingSlashWithConfig(TrailingSlashConfig{})`
+(the nil `Skipper` is replaced by the default one, `RedirectCode` 0): both only ever forward.
+A `Skipper` is an arbitrary function of the request; the model carries its answer for the
+request at hand. -/
+
+structure SlashConfig where
+  skip : Bool      -- what `config.Skipper(c)` answers for this request (`DefaultSkipper`: false)
+  code : Nat       -- `RedirectCode`
+deriving DecidableEq, Repr, Inhabited
+
+inductive SlashCtor where
+  | add                            -- `AddTrailingSlash()`
+  | remove                         -- `RemoveTrailingSlash()`
+  | addWith (c : SlashConfig)      -- `AddTrailingSlashWithConfig(c)`
+  | removeWith (c : SlashConfig)   -- `RemoveTrailingSlashWithConfig(c)`
+deriving DecidableEq, Repr, Inhabited
+
+/-- the configuration the returned middleware works with (after the "Defaults" block) -/
+def SlashCtor.config : SlashCtor → SlashConfig
+  | .add => ⟨false, 0⟩
+  | .remove => ⟨false, 0⟩
+  | .addWith c => c
+  | .removeWith c => c
+
+def SlashCtor.isAdd : SlashCtor → Bool
+  | .add => true
+  | .addWith _ => true
+  | _ => false
+
+/-- the middleware a constructor returns, applied to one request -/
+def slashMw (k : SlashCtor) (path qs reqURI : List Char) : Out :=
+  if k.config.skip then .next path reqURI
+  else if k.isAdd then addSlash k.config.code path qs reqURI
+  else removeSlash k.config.code path qs reqURI
 
 /-! ## StaticDirectoryHandler -/
 
@@ -179,19 +222,27 @@ def fsFile (t : Tree) (name : List Char) : Out :=
     | .file => .file
     | _ => .notFound    -- a directory called index.html is opened but cannot be served: not generated
 
-/-- `StaticDirectoryHandler(fs, false)`: `param` is `c.Param("*")`, `urlPath` is
-    `c.Request().URL.Path` -/
+/-- `StaticDirectoryHandler` after the (optional) unescaping of the `*` parameter: `p` is the
+    file name asked for, `urlPath` is `c.Request().URL.Path` -/
+def staticServe (t : Tree) (p urlPath : List Char) : Out :=
+  let name := clean (trimPrefixSlash p)
+  match stat t name with
+  | .missing => .notFound
+  | st =>
+    if st == .dir && !urlPath.isEmpty && !endsWithSlash urlPath then
+      redirect 301 (sanitizeURI (urlPath ++ ['/']))
+    else fsFile t name
+
+/-- `StaticDirectoryHandler(fs, false)` — what `Echo.Static`, `Echo.StaticFS`, `Group.Static`,
+    `Group.StaticFS` register: `param` is `c.Param("*")` -/
 def staticDir (t : Tree) (param urlPath : List Char) : Out :=
   match pathUnescape param with
   | none => .error
-  | some p =>
-    let name := clean (trimPrefixSlash p)
-    match stat t name with
-    | .missing => .notFound
-    | st =>
-      if st == .dir && !urlPath.isEmpty && !endsWithSlash urlPath then
-        redirect 301 (sanitizeURI (urlPath ++ ['/']))
-      else fsFile t name
+  | some p => staticServe t p urlPath
+
+/-- `StaticDirectoryHandler(fs, disablePathUnescaping)` -/
+def staticHandler (disable : Bool) (t : Tree) (param urlPath : List Char) : Out :=
+  if disable then staticServe t param urlPath else staticDir t param urlPath
 
 /-! ## how a browser reads a Location value (specification side) -/
 
@@ -255,32 +306,67 @@ inductive Op where
   | remove (code : Nat) (path qs reqURI : List Char)
   | static (t : Tree) (param urlPath : List Char)
 
-def pOp : P Op := do
-  let k ← tok
-  match k with
-  | "A" => do
-    let code ← nat; let p ← str; let q ← str; let u ← str
-    pure (.add code p q u)
-  | "D" => do
-    let code ← nat; let p ← str; let q ← str; let u ← str
-    pure (.remove code p q u)
-  | "S" => do
-    let dirs ← list str; let files ← list str; let param ← str; let up ← str
-    pure (.static ⟨dirs, files⟩ param up)
-  | _ => failure
-
 def runOp : Op → Out
   | .add code p q u => addSlash code p q u
   | .remove code p q u => removeSlash code p q u
   | .static t param up => staticDir t param up
 
+/-- a request to an application built from the public entry points:
+    * one of the four slash-middleware constructors under `e.Pre`,
+    * a static route (`Static` / `StaticFS` of Echo or Group, or `StaticDirectoryHandler`
+      registered by hand, with or without path unescaping); `param` is what the router bound to
+      `*` — mount points below literal prefixes and path parameters only differ in that value,
+    * a slash middleware under `e.Pre` IN FRONT OF a static route: in forwarding mode the static
+      handler sees the rewritten `URL.Path` (`routed`/`param`: what the router then did). -/
+inductive Req where
+  | slash (k : SlashCtor) (path qs reqURI : List Char)
+  | static (disable : Bool) (t : Tree) (param urlPath : List Char)
+  | preStatic (k : SlashCtor) (path qs reqURI : List Char) (disable : Bool) (t : Tree)
+      (routed : Bool) (param : List Char)
+
+def runReq : Req → Out
+  | .slash k p q u => slashMw k p q u
+  | .static d t param up => staticHandler d t param up
+  | .preStatic k p q u d t routed param =>
+    match slashMw k p q u with
+    | .next p' _ => if routed then staticHandler d t param p' else .notFound
+    | o => o
+
+def pCtor : P SlashCtor := do
+  let k ← tok
+  let plain ← bool; let skip ← bool; let code ← nat
+  match k, plain with
+  | "A", true => pure .add
+  | "D", true => pure .remove
+  | "A", false => pure (.addWith ⟨skip, code⟩)
+  | "D", false => pure (.removeWith ⟨skip, code⟩)
+  | _, _ => failure
+
+def pReq : P Req := do
+  let k ← tok
+  match k with
+  | "M" => do
+    let c ← pCtor; let p ← str; let q ← str; let u ← str
+    pure (.slash c p q u)
+  | "S" => do
+    let d ← bool; let dirs ← list str; let files ← list str; let param ← str; let up ← str
+    pure (.static d ⟨dirs, files⟩ param up)
+  | "P" => do
+    let c ← pCtor; let p ← str; let q ← str; let u ← str
+    let d ← bool; let dirs ← list str; let files ← list str; let routed ← bool; let param ← str
+    pure (.preStatic c p q u d ⟨dirs, files⟩ routed param)
+  | _ => failure
+
 /-- lines:
-    `A code path query requestURI` (AddTrailingSlash), `D code path query requestURI`
-    (RemoveTrailingSlash), `S ndirs dirs… nfiles files… param urlPath` (static route) →
-    `N path requestURI` | `R code location sameHost staysOnHost` | `E` | `404` | `F` -/
+    `M (A|D) plain skip code path query requestURI` — a slash middleware (`plain`: the
+    constructor without config; `skip`: the Skipper's answer),
+    `S disableUnescape ndirs dirs… nfiles files… param urlPath` — a static route,
+    `P (A|D) plain skip code path query requestURI disableUnescape ndirs dirs… nfiles files… routed param`
+    — slash middleware in front of a static route
+      → `N path requestURI` | `R code location sameHost staysOnHost` | `E` | `404` | `F` -/
 def runLine (line : String) : String :=
-  match parseLine pOp line with
+  match parseLine pReq line with
   | none => "bad-op"
-  | some op => render (encOut (runOp op))
+  | some r => render (encOut (runReq r))
 
 end C17
